@@ -1086,6 +1086,20 @@ func (e *specEnv) call(n *ast.CallExpr) Val {
 				if fd := e.t.eng.specFunc(p, se.Sel.Name); fd != nil {
 					return e.inline(fd, p, n.Args)
 				}
+				// macro of another package: its body is evaluated in that package's scope
+				if d := e.t.eng.cs.ByTarget["define "+p.Path()+"."+se.Sel.Name]; d != nil && d.DefExpr != nil {
+					if len(n.Args) != len(d.DefParams) {
+						e.errorf("define %s: %d arguments expected", se.Sel.Name, len(d.DefParams))
+						return bad(tBool)
+					}
+					sub := &specEnv{t: e.t, vars: map[string]Val{}, lvs: map[string]*LVal{}, cur: e.cur, old: e.old, pkg: p, depth: e.depth + 1, acc: e.acc}
+					for i, a := range n.Args {
+						sub.vars[d.DefParams[i]] = e.eval(a)
+					}
+					r := sub.eval(d.DefExpr)
+					e.errs = append(e.errs, sub.errs...)
+					return r
+				}
 			}
 		}
 	}
